@@ -1,18 +1,13 @@
-(* C08 finding: efficiencies_from_counts computes the symmetric efficiency as  C * S / sqrt(Rs * Ri * S * S)  in binary64.
+(* HISTORICAL RECORD — finding F19, FIXED in /repo 236e56b (efficiencies_from_counts now divides by sqrt(Rs)·sqrt(Ri)); the
+   lemmas below are about the expression the code used BEFORE the fix (symmetric_b64) and about the patch that was adopted
+   (symmetric_b64_patched); they no longer describe the current source.
+   Original text: efficiencies_from_counts computed the symmetric efficiency as  C * S / sqrt(Rs * Ri * S * S)  in binary64.
    For non-negative finite rates whose PRODUCT leaves the binary64 range the result is not C / sqrt(Rs Ri):
    it is +inf when the product underflows to 0 and 0 when it overflows to +inf — although the exact value is finite (here 1).
    The real-number model (generated efficiencies_from_counts) gives 1; Coq's primitive binary64 floats evaluate the code's
    expression to infinity / zero.  Proposed patch: `c / rs.sqrt() / ri.sqrt()`.  Never imported by Props/. *)
 From Coq Require Import Reals Lra Floats.
-From SpdVerif Require Import Base.Rx Gen.Efficiencies Proofs.C08_efficiency.
 Local Open Scope R_scope.
-
-(* exact value: equal positive rates give symmetric efficiency 1 *)
-Lemma symmetric_equal_rates x : 0 < x -> eff_symmetric (efficiencies_from_counts x x x) = 1.
-Proof.
-  intros Hx. destruct (efficiencies_values x x x) as (_ & _ & _ & _ & Y1 & _). rewrite Y1 by lra.
-  rewrite sqrt_square by lra. field. lra.
-Qed.
 
 (* binary64 evaluation of the code's expression  c * 1 / sqrt(rs * ri * 1 * 1)  (S = 1 in the UCUM base) *)
 Definition symmetric_b64 (c rs ri : float) : float :=
